@@ -3,6 +3,10 @@ import json, os, sys
 HERE = os.path.dirname(os.path.dirname(os.path.abspath(__file__)))
 
 CHECKS = {
+    "C17": ("exploration", "3 C17",
+            "Every payload of a boundary corpus (all 256 single bytes incl. the IH5 deletion marker, 2-byte strings over boundary bytes, lengths around 64/128/1024/4096/65536 in three fillings, NUL- and marker-variants) is embedded with pack_file from a real file through each driver (h5py, IH5, IH5MF), followed by every follow-up sequence (bounded length) of patch boundary, copy, move, merge, reopen; after every step every embedded node must read back the exact bytes and carry core.file metadata with exact size and SHA-256; the marker value must be refused on IH5 without leaving anything behind.",
+            "Finite payload corpus; MIME detection not judged; follow-up length bounded (1 for all payloads, 2 for 12 representatives in quick; +1 in thorough).",
+            "exhaustive input x history enumeration on the real embedding path"),
     "C15": ("model_checking", "3 C15",
             "Explicit-state search where a state is a wrapper (path, kind, ACL flags, local-parent chain) and transitions are all navigation primitives of the group/dataset protocol (children, lookups by key / absolute / deep path, values, items, visititems, require_* of existing nodes, parent, file, query results, restrict with more flags, restrict(flag=False)); BFS to fixpoint from every node of a 3-level container x all 8 flag sets x drivers x both ways of restricting the root. In every reached state: flags never shrink, read_only => every protocol mutator on data/attributes/metadata raises with the raw dump unchanged, skel_only => content reads refuse while keys/in work, local_only => nothing above the local root, no raw object is ever handed out.",
             "Protocol = util/types.py Protocol classes + meta/metador/restrict/acl + the dataset mutators the code lists; private attributes are not navigation; one fixture container per driver.",
